@@ -40,7 +40,7 @@ std::string prop_generate(Tape & t, int size) {
     int64_t total = need + t.range(0, need / 2 + 30);
     if (total > cap) total = cap;
     if (total < 1) total = 1;
-    Pattern pat = gen_pattern(t, *dt, {"random", "random", "ramp", "const", "alt", "extremes", "small", "offset", "blocks"}, sd.spd);
+    Pattern pat = gen_pattern(t, *dt, {"random", "random", "ramp", "const", "alt", "extremes", "small", "offset", "offset", "blocks"}, sd.spd);
     if (dt->kind == 'f' && pat.kind == "extremes" && dt->bits == 32) pat.kind = "random";
     std::vector<uint32_t> parts = gen_partition(t, total, sd.spd, 12);
     int64_t written = 0;
